@@ -78,14 +78,25 @@ static void check_cell(Chk& k, const Spec& s, const std::vector<GroupT>& all, co
     // piecewise geodesic through the trajectory
     for (int w = 0; w < Wt; ++w) {
       const int a = (w < W) ? w : c.N - 1, b = (w < W) ? w + 1 : 0;
-      const MatL MA = ref_mat(s, toVL(traj[a].coeffs())), MB = ref_mat(s, toVL(traj[b].coeffs()));
-      VecL dlog;
-      if (!ref_log(s, MatL(ref_inv(s, MA) * MB), dlog)) { k.label("geodesic oracle inconclusive"); continue; }
-      // the closing segment may have a relative rotation beyond pi - 1e-6: the geodesic is then not unique
-      if (tan_theta_max(s, dlog) > M_PI - 1e-6) continue;
+      // the long-double matrix exponential of a tangent with a linear part ~1e6 carries u_LD*1e6 into the rotation
+      // block: any error above a tenth of the tolerance is re-evaluated with the 50-digit oracle before it counts
+      auto geodesic = [&](Prec pr, int i, LD& err) {
+        const MatL MA = ref_mat(s, toVL(traj[a].coeffs()), pr), MB = ref_mat(s, toVL(traj[b].coeffs()), pr);
+        VecL dlog;
+        if (!ref_log(s, MatL(ref_inv(s, MA, pr) * MB), dlog, pr)) return 0;
+        // the closing segment may have a relative rotation beyond pi - 1e-6: the geodesic is then not unique
+        if (tan_theta_max(s, dlog) > M_PI - 1e-6) return 2;
+        const MatL want = MA * ref_exp(s, VecL(dlog * ((LD)i / (LD)c.k)), pr);
+        err = ref_group_err(s, ref_mat(s, toVL(curve[(size_t)w * kp + i - 1].coeffs()), pr), want, S);
+        return 1;
+      };
       for (int i = 1; i <= c.k; ++i) {
-        const MatL want = MA * ref_exp(s, VecL(dlog * ((LD)i / (LD)c.k)));
-        const LD err = ref_group_err(s, ref_mat(s, toVL(curve[(size_t)w * kp + i - 1].coeffs())), want, S);
+        LD err = 0;
+        int st = geodesic(P_LD, i, err);
+        if (st == 2) break;
+        if (st == 0 || err > 0.1 * kValTol) { st = geodesic(P_MP, i, err); k.o.confirmed_mp = 1; }
+        if (st == 0) { k.label("geodesic oracle inconclusive"); break; }
+        if (st == 2) break;
         k.expect("degree 2 = piecewise geodesic", (double)err, kValTol, id + ": point " + std::to_string(i) + " of window " + std::to_string(w) + " is not on the geodesic");
       }
     }
